@@ -51,3 +51,19 @@ def _mech(w):
 # ---------------------------------------------------------------------------
 # classifiers are added below as findings are recorded
 # ---------------------------------------------------------------------------
+
+
+@classifier
+def c07_no_duplicates_not_discovered_for_date_or_bool(w):
+    """discovery computes the distinct count for string and int fields only, so an all-distinct
+    date field or a two-valued bool field never gets no_duplicates"""
+    m = _mech(w)
+    return w.get('kind') == 'constraint_missing' and m.get('kind') == 'no_duplicates' and m.get('family') in ('date', 'bool')
+
+
+@classifier
+def c07_nanosecond_bounds_truncated(w):
+    """min/max of datetime64[ns] data are converted with to_pydatetime(): the sub-microsecond part is dropped"""
+    m = _mech(w)
+    return (w.get('kind') == 'statistic_wrong' and m.get('kind') in ('min', 'max') and m.get('family') == 'date'
+            and m.get('sub') == 'sub-microsecond part dropped' and m.get('backend') == 'pandas')
